@@ -283,7 +283,14 @@ fn mixed_case(k1: usize, k2: usize, alloc: u8, viol: Option<(usize, i64, usize)>
     fn circuit<CS: RandomizableConstraintSystem<Fr>>(cs: &mut CS, av: &[Variable<Fr>], bv: &[Variable<Fr>], cv: &[Variable<Fr>], pv: Vec<(Variable<Fr>, Variable<Fr>)>,
             alloc: u8, vals: Option<(Vec<Fr>, Vec<Fr>)>) -> Result<(), R1CSError> {
         for i in 0..av.len() {
-            let o = if alloc >= 1 {
+            let o = if alloc == 3 {
+                // a single allocation left open across a full gate: allocate(l); multiply(..); allocate(r)
+                let l = cs.allocate(vals.as_ref().map(|v| v.0[i]))?;
+                let (_, _, o) = cs.multiply(av[i].into(), bv[i].into());
+                let r = cs.allocate(vals.as_ref().map(|v| v.1[i]))?;
+                cs.constrain(l - av[i]); cs.constrain(r - bv[i]);
+                o
+            } else if alloc >= 1 {
                 let l = cs.allocate(vals.as_ref().map(|v| v.0[i]))?;
                 let r = cs.allocate(vals.as_ref().map(|v| v.1[i]))?;
                 cs.constrain(l - av[i]); cs.constrain(r - bv[i]);
@@ -333,8 +340,8 @@ fn c01(replay: Option<(usize, usize, usize)>) -> (bool, String, String) {
             Ok(Ok(false)) => Some(format!("honest proof of a satisfied circuit rejected: k1={} first-phase gates, k2={} second-phase gates, allocate={}", k1, k2, al)),
             Ok(Ok(true)) => None } };
     if let Some((a, b, c)) = replay { return match run(a, b, c) { Some(m) => (true, format!("[{},{},{}]", a, b, c), m), None => (false, format!("[{},{},{}]", a, b, c), "ok".into()) }; }
-    for k1 in 0..=4 { for k2 in 0..=3 { for al in 0..=2 { if let Some(m) = run(k1, k2, al) { return (true, format!("[{},{},{}]", k1, k2, al), m); } } } }
-    (false, "null".into(), "honest proofs for k1 in 0..4 first-phase x k2 in 0..3 second-phase gates, multiply, allocate-pair and odd-allocate styles".into())
+    for k1 in 0..=4 { for k2 in 0..=3 { for al in 0..=3 { if let Some(m) = run(k1, k2, al) { return (true, format!("[{},{},{}]", k1, k2, al), m); } } } }
+    (false, "null".into(), "honest proofs for k1 in 0..4 first-phase x k2 in 0..3 second-phase gates, multiply, allocate-pair, odd-allocate and interleaved-allocate styles".into())
 }
 fn c02(replay: Option<(usize, usize, usize, usize, usize)>) -> (bool, String, String) {
     let run = |k1: usize, k2: usize, i: usize, sg: usize, j: usize| -> Option<String> {
